@@ -8,7 +8,7 @@ import Model.Spec.FmtFloat
 /-
 C01 driver.
 
-case <id> kind=api|text|filter wf=0|1 cr=0|1 h=<history> fmt=<tbl> wbytes=<hex> nums=<tbl> tidy=<tbl> uni=<tbl> tag=…
+case <id> kind=api|text|filter wf=0|1 cr=0|1 long=0|1 h=<history> fmt=<tbl> wbytes=<hex> nums=<tbl> tidy=<tbl> uni=<tbl> tag=…
   h    : rec|rec|…  ("-" = empty)   the records handed to Writer.Write, as they were at that moment
          rec = R;<name>;<iters>;<v,v,…|->;<c,c,…|->     v = bits:unit:origbits:origunit   c = key:value:F|I
              | U;<tidy unit>;<key>;<unit as written>;<value>
@@ -23,8 +23,9 @@ obs  <id> bytes=<hex>     model writer's bytes                      (Go: impleme
 obs  <id> ir=<stream>     observe(MODEL read(IMPLEMENTATION bytes)) (Go: observe(h) by the harness)
 obs  <id> mr=<stream>     observeWritten h                          (Go: observe(IMPL read(MODEL bytes)),
                                                                      model bytes fetched from `driver_c01 serve`)
-       ir/mr are `skip` when wf=0 or cr=1 on the case line (round trip not expected / N1)
-spec <id> rt=<stream> leak=- [kf=N1]     only when the history satisfies Spec.RoundTrip.WFnoCR
+       ir/mr are `skip` when wf=0, cr=1 or long=1 on the case line (round trip not expected / N1 / N1L:
+       a written line of 64 KiB or more)
+spec <id> rt=<stream> leak=- [kf=N1|N1L|N1+N1L]     only when the history satisfies Spec.RoundTrip.WFnoCR
        (Go: sobs <id> rt=observe(IMPL read(IMPL bytes)) leak=<internal keys read back as file config>)
 
 serve mode (`driver_c01 serve`):  wreq <id> h=… fmt=…  ↦  wbytes <id> <hex>
@@ -188,7 +189,7 @@ def handleCase (l : Line) : IO Unit := do
     IO.println s!"obs {l.id} fmt={joinOr "," specTbl}"
     let mbytes := render (Writer.writeAll P h)
     IO.println s!"obs {l.id} bytes={mbytes.toHex}"
-    let roundTrips := l.getD "wf" "1" == "1" && l.getD "cr" "0" == "0"
+    let roundTrips := l.getD "wf" "1" == "1" && l.getD "cr" "0" == "0" && l.getD "long" "0" == "0"
     if roundTrips then
       let wbytes := (l.bytes? "wbytes").getD []
       IO.println s!"obs {l.id} ir={showStream (Spec.RoundTrip.observeRead (readAll O [] wbytes))}"
@@ -197,7 +198,10 @@ def handleCase (l : Line) : IO Unit := do
       IO.println s!"obs {l.id} ir=skip"
       IO.println s!"obs {l.id} mr=skip"
     if Spec.RoundTrip.WFnoCR O h then
-      let kf := if Spec.RoundTrip.hasCRValue h then " kf=N1" else ""
+      -- N1L: some written line is beyond the reader's line limit (bufio.MaxScanTokenSize)
+      let tooLong := (Writer.writeAll P h).any (fun ln => ln.length ≥ 65536)
+      let kfs := (if Spec.RoundTrip.hasCRValue h then ["N1"] else []) ++ (if tooLong then ["N1L"] else [])
+      let kf := if kfs.isEmpty then "" else " kf=" ++ "+".intercalate kfs
       IO.println s!"spec {l.id} rt={showStream (Spec.RoundTrip.observeWritten h)} leak=-{kf}"
 
 def handleServe (l : Line) : IO Unit := do
